@@ -122,3 +122,35 @@ package acl
 //@   requires subcommand: len(params.Command) >= 2
 //@ func handleWhoAmI props C12
 //@   requires subcommand: len(params.Command) >= 2
+
+// ---- user deletion -------------------------------------------------------------------------------
+
+// the deadline call is the only thing DeleteUser does to a connection: it writes nothing the proof can see
+//@ func (Conn).SetReadDeadline in net trusted props C11
+//@   modifies nothing
+
+// (That deletion adds no user is not stated: together with others-kept it makes a pair of forall-exists facts that
+// instantiate each other without end in the solvers.)
+// named(names, n): n is one of the names.
+//@ spec named(names []string, n string) bool = exists j int :: 0 <= j && j < len(names) && names[j] == n
+
+//@ func (*ACL).DeleteUser props C11
+//@   requires inv(acl, users) && inv(acl, conns) && inv(acl, hasdefault)
+//@   requires connusers: forall c *net.Conn :: has(acl.Connections, c) ==> acl.Connections[c].User != nil
+//@   ensures {C11} nil: result == nil
+//@   ensures {C11} deleted: forall i int :: 0 <= i && i < len(acl.Users) ==> acl.Users[i].Username == "default" || !named(usernames, acl.Users[i].Username)
+//@   ensures {C11} others-kept: forall k int :: 0 <= k && k < len(old(acl.Users)) && (old(acl.Users[k].Username) == "default" || !named(usernames, old(acl.Users[k].Username))) ==> (exists i int :: 0 <= i && i < len(acl.Users) && acl.Users[i] == old(acl.Users[k]))
+//@   ensures inv(acl, users) && inv(acl, hasdefault)
+//@   modifies acl.Users, acl.Users[*], $lock
+//@   loop 0
+//@     invariant -1 <= rangeindex && rangeindex < len(usernames) && inv(acl, users) && inv(acl, conns)
+//@     invariant samearr(acl.Users, old(acl.Users)) && len(acl.Users) <= len(old(acl.Users))
+//@     invariant user == nil || (user.Username != "default" && named(usernames, user.Username))
+//@     invariant forall i int :: 0 <= i && i < len(acl.Users) ==> acl.Users[i].Username == "default" || !(exists j int :: 0 <= j && j <= rangeindex && usernames[j] == acl.Users[i].Username)
+//@     invariant forall k int :: 0 <= k && k < len(old(acl.Users)) && (old(acl.Users[k].Username) == "default" || !named(usernames, old(acl.Users[k].Username))) ==> (exists i int :: 0 <= i && i < len(acl.Users) && acl.Users[i] == old(acl.Users[k]))
+//@   loop 1
+//@     invariant -1 <= rangeindex && rangeindex < len(acl.Users) && inv(acl, users) && inv(acl, conns)
+//@     invariant user == nil || (user.Username != "default" && named(usernames, user.Username))
+//@     invariant forall k int :: 0 <= k && k <= rangeindex && acl.Users[k].Username == username ==> user != nil && user.Username == username
+//@   loop 2
+//@     invariant inv(acl, users) && inv(acl, conns) && user != nil && user.Username != "default" && named(usernames, user.Username)
